@@ -2230,7 +2230,15 @@ func (c *RemoteClient) handleMessage(ctx context.Context, m *Message) error {
 			}, "Wrong message ID in tx message")
 		} else {
 			c.nextMessageID.Store(msg.ID + 1)
-			c.addHandlerMessage(ctx, m)
+			if err := c.addHandlerMessage(ctx, m); err != nil {
+				// The message did not reach the handlers, so it must not be counted. The following
+				// messages are then rejected by their ids until the next ready message asks for
+				// this one again.
+				logger.WarnWithFields(ctx, []logger.Field{
+					logger.Uint64("message_id", msg.ID),
+				}, "Failed to queue message for handlers : %s", err)
+				c.nextMessageID.Store(msg.ID)
+			}
 		}
 
 	case *TxUpdate:
@@ -2252,7 +2260,15 @@ func (c *RemoteClient) handleMessage(ctx context.Context, m *Message) error {
 			}, "Wrong message ID in tx update message")
 		} else {
 			c.nextMessageID.Store(msg.ID + 1)
-			c.addHandlerMessage(ctx, m)
+			if err := c.addHandlerMessage(ctx, m); err != nil {
+				// The message did not reach the handlers, so it must not be counted. The following
+				// messages are then rejected by their ids until the next ready message asks for
+				// this one again.
+				logger.WarnWithFields(ctx, []logger.Field{
+					logger.Uint64("message_id", msg.ID),
+				}, "Failed to queue message for handlers : %s", err)
+				c.nextMessageID.Store(msg.ID)
+			}
 		}
 
 	case *Headers:
